@@ -295,7 +295,7 @@ Example C05_demo_run :
              (1, 1, Some 0); (1, 3, Some 0); (1, 0, None); (2, 1, Some 0); (2, 3, Some 0); (2, 0, None);
              (0, 1, Some 9); (0, 3, Some 9); (0, 0, None); (1, 1, Some 1); (1, 3, Some 1); (1, 0, None);
              (2, 1, Some 1)] /\
-          f_state f = AwaitDataResponse 1 200000 (Some 0%nat)
+          f_state f = AwaitDataResponse 1 180000 (Some 0%nat)
       | _ => False
       end
   | _ => False
